@@ -4,6 +4,7 @@
 -/
 import HealSparse.Lemmas.Core
 import HealSparse.Lemmas.Coverage
+import HealSparse.Lemmas.BoolOps
 import HealSparse.Model.BoolOps
 import HealSparse.Props.C04
 import HealSparse.Props.C01
@@ -20,7 +21,8 @@ theorem boolConst_spec (c : Cfg) (s : State Bool) (op : Bool → Bool → Bool) 
     (∀ p, p < c.npix → abs c bvc (boolConst c s op k) p
         = denseBoolConst c (abs c bvc s) (covered c s) op k p) ∧
     (∀ j, covered c (boolConst c s op k) j = covered c s j) := by
-  sorry
+  rw [boolConst_eq_mapGuard]
+  exact mapGuard_spec c bvc s _ h
 
 /-- Inversion flips exactly the pixels inside the coverage mask. -/
 theorem invert_spec (c : Cfg) (s : State Bool) (h : Inv c bvc s) :
@@ -28,11 +30,12 @@ theorem invert_spec (c : Cfg) (s : State Bool) (h : Inv c bvc s) :
     (∀ p, p < c.npix → abs c bvc (invertMap c s) p
         = if covered c s (p >>> c.shift) then !(abs c bvc s p) else abs c bvc s p) ∧
     (∀ j, covered c (invertMap c s) j = covered c s j) := by
-  sorry
+  rw [invertMap_eq_mapGuard]
+  exact mapGuard_spec c bvc s _ h
 
 /-- Inversion is its own inverse (literally, on the representation). -/
 theorem invert_involutive (c : Cfg) (s : State Bool) : invertMap c (invertMap c s) = s := by
-  sorry
+  exact invertMap_invertMap c s
 
 /-- **`a op= b`** (in place): `a` outside `b`'s coverage, the pointwise operation inside it;
     coverage = union; the layout is preserved; for every block order on either side. -/
@@ -42,7 +45,7 @@ theorem boolMapInPlace_spec (c : Cfg) (a b : State Bool) (op : Bool → Bool →
     (∀ p, p < c.npix → abs c bvc (boolMapInPlace c bvc a b op) p
         = denseBoolMap c (abs c bvc a) (abs c bvc b) (covered c b) op p) ∧
     (∀ k, k < c.ncov → covered c (boolMapInPlace c bvc a b op) k = (covered c a k || covered c b k)) := by
-  sorry
+  exact boolMapInPlace_spec' c bvc rfl a b op ha hb
 
 /-- **`a op b`** (copying form) yields the same map as the in-place form applied to a copy:
     same layout invariant, same value at every pixel, same coverage mask. -/
@@ -53,7 +56,8 @@ theorem boolMapCopy_spec (c : Cfg) (a b : State Bool) (op : Bool → Bool → Bo
         = abs c bvc (boolMapInPlace c bvc a b op) p) ∧
     (∀ k, k < c.ncov → covered c (boolMapCopy c a b op) k
         = covered c (boolMapInPlace c bvc a b op) k) := by
-  sorry
+  rw [boolMapCopy_eq_inPlace c bvc rfl a b op ha]
+  exact ⟨(boolMapInPlace_spec' c bvc rfl a b op ha hb).1, fun _ _ => rfl, fun _ _ => rfl⟩
 
 /-- commutativity of or / xor values wherever both coverages apply -/
 theorem or_comm_on_common (c : Cfg) (a b : State Bool) (ha : Inv c bvc a) (hb : Inv c bvc b)
@@ -61,7 +65,9 @@ theorem or_comm_on_common (c : Cfg) (a b : State Bool) (ha : Inv c bvc a) (hb : 
     (hca : covered c a (p >>> c.shift) = true) (hcb : covered c b (p >>> c.shift) = true) :
     abs c bvc (boolMapCopy c a b (· || ·)) p = abs c bvc (boolMapCopy c b a (· || ·)) p ∧
     abs c bvc (boolMapCopy c a b (· != ·)) p = abs c bvc (boolMapCopy c b a (· != ·)) p := by
-  sorry
+  rw [boolMapCopy_abs_on c bvc rfl a b _ ha hb hp hcb, boolMapCopy_abs_on c bvc rfl b a _ hb ha hp hca,
+    boolMapCopy_abs_on c bvc rfl a b _ ha hb hp hcb, boolMapCopy_abs_on c bvc rfl b a _ hb ha hp hca]
+  cases abs c bvc a p <;> cases abs c bvc b p <;> exact ⟨rfl, rfl⟩
 
 /-- De Morgan wherever both coverages apply: `~(a & b) = ~a | ~b`. -/
 theorem de_morgan_on_common (c : Cfg) (a b : State Bool) (ha : Inv c bvc a) (hb : Inv c bvc b)
@@ -69,14 +75,27 @@ theorem de_morgan_on_common (c : Cfg) (a b : State Bool) (ha : Inv c bvc a) (hb 
     (hca : covered c a (p >>> c.shift) = true) (hcb : covered c b (p >>> c.shift) = true) :
     abs c bvc (invertMap c (boolMapCopy c a b (· && ·))) p
       = abs c bvc (boolMapCopy c (invertMap c a) (invertMap c b) (· || ·)) p := by
-  sorry
+  have hk := covpix_lt c p hp
+  obtain ⟨hi, _, hcov⟩ := boolMapCopy_spec' c bvc rfl a b (· && ·) ha hb
+  have hia := (invert_spec c a ha).1
+  have hib := (invert_spec c b hb).1
+  have hcib : covered c (invertMap c b) (p >>> c.shift) = true := hcb
+  rw [invertMap_abs_on c bvc _ hi hp (by rw [hcov _ hk, hca]; rfl),
+    boolMapCopy_abs_on c bvc rfl a b _ ha hb hp hcb,
+    boolMapCopy_abs_on c bvc rfl _ _ _ hia hib hp hcib,
+    invertMap_abs_on c bvc a ha hp hca, invertMap_abs_on c bvc b hb hp hcb]
+  cases abs c bvc a p <;> cases abs c bvc b p <;> rfl
 
 /-- absorption wherever both coverages apply: `a | (a & b) = a`. -/
 theorem absorption_on_common (c : Cfg) (a b : State Bool) (ha : Inv c bvc a) (hb : Inv c bvc b)
     (p : Nat) (hp : p < c.npix)
     (hca : covered c a (p >>> c.shift) = true) (hcb : covered c b (p >>> c.shift) = true) :
     abs c bvc (boolMapCopy c a (boolMapCopy c a b (· && ·)) (· || ·)) p = abs c bvc a p := by
-  sorry
+  have hk := covpix_lt c p hp
+  obtain ⟨hi, _, hcov⟩ := boolMapCopy_spec' c bvc rfl a b (· && ·) ha hb
+  rw [boolMapCopy_abs_on c bvc rfl a _ _ ha hi hp (by rw [hcov _ hk, hca]; rfl),
+    boolMapCopy_abs_on c bvc rfl a b _ ha hb hp hcb]
+  cases abs c bvc a p <;> cases abs c bvc b p <;> rfl
 
 /-- non-vacuity: operands with different block orders and partially overlapping coverage -/
 example : Inv ⟨3, 1⟩ bvc ⟨#[4, -2, -2], #[false, false, true, false, false, true]⟩ ∧
